@@ -7,7 +7,7 @@ ID = "C16"
 HARNESSES = [
     dict(name="chan", pkg="./pkg/l2tp/", test="TestVerifC16",
          files=[("pkg/l2tp/zz_verif_c16_test.go", "harness/C16/zz_verif_c16_test.go")]),
-    dict(name="disp", pkg="./internal/l2tp/", test="TestVerifC16Dispatch",
+    dict(name="disp", pkg="./internal/l2tp/", test="TestVerifC16Dispatch", timeout=900,
          files=[("internal/l2tp/zz_verif_c16_dispatch_test.go", "harness/C16/zz_verif_c16_dispatch_test.go")]),
 ]
 # one model = what /repo HEAD does; every C16 finding is fixed (last: 1a77bf9), so a regression to any of them is a VIOLATION
@@ -267,7 +267,11 @@ def gen_e2e(rng, quick):
         for _ in range(rng.choice([1, 1, 2])):
             fs.add("%s%s%d" % (rng.choice("xulv"), rng.choice("ab"), rng.randrange(6)))
         out.append("e2e w3500 " + " ".join(sorted(fs)))
+    # "... or the sender declares the tunnel dead": a direction of the link is cut for good, the real channels exhaust their
+    # retransmissions on the real timers (1+2+4+8+8 s) and the dead callback of startTunnelRunner must unregister the tunnel
+    out += ["e2e w26000 Xb0", "e2e w26000 Xb1", "e2e w26000 Xa1"]
     if not quick:
+        out += ["e2e w26000 Xa0", "e2e w26000 Xa2 ub0", "e2e w26000 Xb2", "e2e w26000 Xa3 Xb3"]
         out += ["e2e xa0 xa1", "e2e xb0 xb1", "e2e xa0 xb0 xa1", "e2e xa0 xa1 xa2"]
     return out
 
@@ -283,7 +287,7 @@ def gen_runner():
     for h in range(530, 1131, 100):                       # ICRP acknowledged, tunnel idle again, then a Hello
         out.append("runner %d 5:scccn 300:icrq 430:ack %d:hello" % (h + 1100, h))
     for h in (330, 630, 1130):                            # SCCRP never acknowledged: retransmission carries the ack
-        out.append("runner %d %d:hello" % (max(h + 1100, 1600), h))
+        out.append("runner 3600 %d:hello" % h)        # the Hello at 1130 is acknowledged by the SCCRP retransmission at 3000
     out.append("runner 2000 5:scccn 330:hello 380:hello 830:hello")
     out.append("runner 2100 5:scccn 300:icrq 360:icrq 430:ack 930:hello")
     return out
@@ -446,6 +450,12 @@ def monitor(case, line):
                             "delivered to the protocol machine a second time" % (i, st, st[1:], toks[i + off - 1], toks[i + off]))
         return None
     if case.startswith("e2e"):
+        if any(t[0] == "X" for t in case.split()[1:]):
+            if "lac=T0" not in line or "lns=T0" not in line:
+                return ("a direction of the link was cut for good (%s): after the retransmissions ran out (23 s) a side still has its "
+                        "tunnel registered — the messages it accepted are neither delivered nor is the tunnel declared dead: %s"
+                        % ([t for t in case.split()[1:] if t[0] == "X"], line))
+            return None
         if any(t[0] == "f" for t in case.split()[1:]):
             return None     # a failed transport write may legitimately end the bring-up (the LAC gives up): exact comparison only
         if "lac=T1S1," not in line or "lns=T1S1," not in line or not line.endswith("est=11"):
@@ -704,7 +714,7 @@ def distribution(cases, impl):
                 d.setdefault("e2e_faults", {})
                 if t[0] == "w":
                     continue
-                name = {"x": "drop", "u": "duplicate", "l": "delay", "v": "duplicate+delay", "f": "write-error"}.get(t[0], t[0])
+                name = {"x": "drop", "u": "duplicate", "l": "delay", "v": "duplicate+delay", "f": "write-error", "X": "link-cut(dead)"}.get(t[0], t[0])
                 d["e2e_faults"][name] = d["e2e_faults"].get(name, 0) + 1
             if o and o.endswith("est=11"):
                 d["e2e_established"] = d.get("e2e_established", 0) + 1
